@@ -45,7 +45,7 @@ theorem snocClone_nomerge (b : Bool) (K : List HTree) (t : HTree)
 
 namespace Work
 
-variable {g : Forest} {R : List HTree} {fs : List Frame} {c : Nat} {vc : Value} {K : List HTree}
+variable {g : Forest} {R : List HTree} {fs : List CFrame} {c : Nat} {vc : Value} {K : List HTree}
   {n : Nat} {v : Value}
 
 theorem mapGetNode_ns_none (w : Work g R fs c vc K n v) (p : Nat)
